@@ -533,3 +533,155 @@ V("c20-eventlog-name", "C20", "fire", "C20.R5",
 V("c20-elif-flatten-equiv", "C20", "silent", None,
   (LH, "        if path == \"STDERR\":\n            check_std_stream()\n",
        "        if \"STDERR\" == path:\n            check_std_stream()\n"))
+
+# ---------------------------------------------------------------- C01
+MTF = "src/ZConfig/matcher.py"
+INFO = "src/ZConfig/info.py"
+V("c01-minoccurs-le", "C01", "fire", "C01.R2",
+  (MTF, "                if len(v) < ci.minOccurs:", "                if len(v) <= ci.minOccurs:"))
+V("c01-maxoccurs-lt", "C01", "fire", "C01.R2",
+  (INFO, "        if maxOccurs < 1:", "        if maxOccurs < 0:"))
+V("c01-min-max-ge", "C01", "fire", "C01.R2",
+  (INFO, "        if minOccurs > maxOccurs:", "        if minOccurs >= maxOccurs:"))
+V("c01-ismulti-ge", "C01", "fire", "C01.R2",
+  (INFO, "        return self.maxOccurs > 1", "        return self.maxOccurs >= 1"))
+V("c01-name-reuse-after", "C01", "fire", "C01.R3",
+  (MTF, "        if name:\n            if name in self._sectionnames:\n"
+        "                raise ZConfig.ConfigurationError(\n"
+        "                    \"section names must not be re-used within the\"\n"
+        "                    \" same container:\" + repr(name))\n"
+        "            self._sectionnames[name] = name\n",
+        "        if name:\n            self._sectionnames[name] = name\n"))
+V("c01-star-allows-plus", "C01", "fire", "C01.R1",
+  (INFO, "        if name == \"*\" or name == \"+\":\n            return False\n        elif self.name == \"+\":",
+         "        if name == \"*\":\n            return False\n        elif self.name == \"+\":"))
+V("c01-plus-unnamed-ok", "C01", "fire", "C01.R1",
+  (INFO, "            return True if name else False", "            return True"))
+V("c01-slot-search-no-fallthrough", "C01", "fire", "C01.R4",
+  (INFO, "        raise ZConfig.ConfigurationError(\n            \"no matching section defined for type='%s', name='%s'\"\n            % (type_, name))",
+         "        return self._children[0][1]"))
+V("c01-slot-search-type-check", "C01", "fire", "C01.R4",
+  (INFO, "                    if st.name != type_:\n                        raise ZConfig.ConfigurationError(\n"
+         "                            \"name %s must be used for a %s section\"\n"
+         "                            % (repr(name), repr(st.name)))\n", ""))
+V("c01-abstract-gate", "C01", "fire", "C01.R5",
+  (LD, "        if t.isabstract():\n            raise ZConfig.ConfigurationError(\n"
+       "                \"concrete sections cannot match abstract section types;\"\n"
+       "                \" found abstract type \" + repr(type_))\n", ""))
+V("c01-allowedname-skipped", "C01", "fire", "C01.R5",
+  (MTF, "        if not ci.isAllowedName(name):\n            raise ZConfig.ConfigurationError(\n"
+        "                \"%s is not an allowed name for %s sections\"\n"
+        "                % (repr(name), repr(ci.sectiontype.name)))\n", ""))
+V("c01-single-value-guard", "C01", "fire", "C01.R3",
+  (MTF, "        elif not ismulti:\n            if k != '+':\n                raise ZConfig.ConfigurationError(\n"
+        "                    repr(key) + \" does not support multiple values\")\n", ""))
+V("c01-datatype-unwrapped", "C01", "fire", "C01.R6",
+  (INFO, "        try:\n            return datatype(self.value)\n        except ValueError as e:\n"
+         "            raise ZConfig.DataConversionError(e, self.value, self.position)",
+         "        return datatype(self.value)"))
+V("c01-unknown-key-ok", "C01", "fire", "C01.R3",
+  (MTF, "            if arbkey_info is None:\n                raise ZConfig.ConfigurationError(\n"
+        "                    repr(key) + \" is not a known key name\")\n            k, ci = arbkey_info",
+        "            if arbkey_info is None:\n                return\n            k, ci = arbkey_info"))
+V("c01-operand-swap-equiv", "C01", "silent", None,
+  (INFO, "        if minOccurs > maxOccurs:", "        if maxOccurs < minOccurs:"))
+V("c01-not-ge-equiv", "C01", "silent", None,
+  (MTF, "                if len(v) < ci.minOccurs:", "                if not (len(v) >= ci.minOccurs):"))
+
+# ---------------------------------------------------------------- C02
+V("c02-single-section-list", "C02", "fire", "C02.R1",
+  (MTF, "            elif type_info.ismulti():\n                v = []\n            else:\n                v = None",
+        "            elif type_info.ismulti() or type_info.issection():\n                v = []\n            else:\n                v = None"))
+V("c02-default-always", "C02", "fire", "C02.R1",
+  (MTF, "                if not v:\n                    default = ci.getdefault()\n                    if isinstance(default, dict):",
+        "                if True:\n                    default = ci.getdefault()\n                    if isinstance(default, dict):"))
+V("c02-insert-front", "C02", "fire", "C02.R",
+  (MTF, "        elif ismulti:\n            v.append(value)", "        elif ismulti:\n            v.insert(0, value)"))
+V("c02-default-unconverted", "C02", "fire", "C02.R1",
+  (MTF, "                    for key, val in ci.getdefault().items():\n                        v[key] = val.convert(ci.datatype)",
+        "                    for key, val in ci.getdefault().items():\n                        v[key] = val.value"))
+V("c02-hyphen-kept", "C02", "fire", "C02.R5",
+  ("src/ZConfig/schema.py", "                aname = self.identifier(aname.replace('-', '_'))",
+   "                aname = self.identifier(aname)"))
+V("c02-default-aliased", "C02", "fire", "C02.R2",
+  (INFO, "        # list and dictionary cases:\n        return copy.copy(self._default)",
+         "        # list and dictionary cases:\n        return self._default"))
+V("c02-section-name-none", "C02", "fire", "C02.R6",
+  (MTF, "        return SectionValue(self._values, self.name, self)", "        return SectionValue(self._values, None, self)"))
+V("c02-schema-datatype-skipped", "C02", "fire", "C02.R6",
+  (MTF, "        v = BaseMatcher.finish(self)\n        v = self.type.datatype(v)\n", "        v = BaseMatcher.finish(self)\n"))
+V("c02-sibling-datatype", "C02", "fire", "C02.R1",
+  (MTF, "                v = [vi.convert(ci.datatype) for vi in values[attr]]",
+        "                v = [vi.convert(self.type.valuetype) for vi in values[attr]]"))
+V("c02-getname-type", "C02", "fire", "C02.R6",
+  (MTF, "    def getSectionName(self):\n        return self._name", "    def getSectionName(self):\n        return self._matcher.type.name"))
+
+# ---------------------------------------------------------------- C14
+V("c14-unfix-wrap", "C14", "fire", "C14.R6",
+  (CM, "            try:\n                name = sectiontype.keytype(optpath[0])\n"
+       "            except ValueError as e:\n"
+       "                url, lineno, colno = pos\n"
+       "                raise ZConfig.DataConversionError(\n"
+       "                    e, optpath[0], (lineno, colno, url))\n",
+       "            name = sectiontype.keytype(optpath[0])\n"))
+V("c14-unfix-position", "C14", "fire", "C14.R",
+  (CM, "                url, lineno, colno = pos\n"
+       "                ZConfig.matcher.BaseMatcher.addValue(\n"
+       "                    self, key, val, (lineno, colno, url))",
+       "                ZConfig.matcher.BaseMatcher.addValue(\n"
+       "                    self, key, val, pos)"))
+V("c14-split-last-eq", "C14", "fire", "C14.R1",
+  (CM, "        opt, val = spec.split(\"=\", 1)", "        opt, val = spec.rsplit(\"=\", 1)"))
+V("c14-empty-component-ok", "C14", "fire", "C14.R1",
+  (CM, "        if \"\" in optpath:\n            # // is not allowed in option path\n"
+       "            e = ZConfig.ConfigurationSyntaxError(\n"
+       "                \"'//' is not allowed in an option path\", *pos)\n"
+       "            e.specifier = spec\n            raise e\n", ""))
+V("c14-suppress-raw-key", "C14", "fire", "C14.R2",
+  (CM, "        if realkey in self.optionbag:\n            return", "        if key in self.optionbag:\n            return"))
+V("c14-finish-before-options", "C14", "fire", "C14.R3",
+  (CM, "        self.finish_optionbag()\n        return ZConfig.matcher.SectionMatcher.finish(self)",
+       "        v = ZConfig.matcher.SectionMatcher.finish(self)\n        self.finish_optionbag()\n        return v"))
+V("c14-leftovers-ignored", "C14", "fire", "C14.R3",
+  (CM, "        self.optionbag.finish()\n", "        pass\n"))
+V("c14-inject-via-mixin", "C14", "fire", "C14.R3",
+  (CM, "                ZConfig.matcher.BaseMatcher.addValue(\n                    self, key, val, (lineno, colno, url))",
+       "                self.addValue(key, val, (lineno, colno, url))"))
+V("c14-values-expanded", "C14", "fire", "C14.R",
+  (CM, "        self.clopts.append((optpath, val, pos))",
+       "        from ZConfig.substitution import substitute\n        self.clopts.append((optpath, substitute(val, {}), pos))"))
+V("c14-name-case-sensitive", "C14", "fire", "C14.R5",
+  (CM, "            if name and self._normalize_case(s) == name:", "            if name and s == name:"))
+V("c14-not-consumed", "C14", "fire", "C14.R5",
+  (CM, "        if L:\n            self.sectitems[:] = R\n", "        if L:\n"))
+V("c14-tail-not-cut", "C14", "fire", "C14.R5",
+  (CM, "            elif bk == type_:\n                L.append((optpath[1:], val, pos))",
+       "            elif bk == type_:\n                L.append((optpath, val, pos))"))
+V("c14-child-fresh-handlers", "C14", "fire", "C14.R7",
+  (CM, "                sm.info, sm.type, sm.name, sm.handlers)", "                sm.info, sm.type, sm.name, [])"))
+V("c14-loader-always-plain", "C14", "fire", "C14.R7",
+  (LD, "    if overrides:\n        from ZConfig import cmdline", "    if overrides is not None:\n        from ZConfig import cmdline"))
+
+# ---------------------------------------------------------------- C16
+V("c16-missing-in-call-loop", "C16", "fire", "C16.R",
+  (LD, "        if L:\n            raise ZConfig.ConfigurationError(\n                \"undefined handlers: \" + \", \".join(L))\n"
+       "        for handler, value in self._handlers:\n            f = d[handler]\n",
+       "        for handler, value in self._handlers:\n            if handler not in d:\n"
+       "                raise ZConfig.ConfigurationError(\"undefined handler\")\n            f = d[handler]\n"))
+V("c16-names-unconverted", "C16", "fire", "C16.R2",
+  (LD, "            n = self._convert(name)\n            if n in d:", "            n = name\n            if n in d:"))
+V("c16-none-called", "C16", "fire", "C16.R2",
+  (LD, "            if f is not None:\n                f(value)", "            if f is not None or True:\n                f(value)"))
+V("c16-unconverted-value", "C16", "fire", "C16.R4",
+  (MTF, "            values[attr] = v\n            if ci.handler is not None:\n                self.handlers.append((ci.handler, v))",
+        "            if ci.handler is not None:\n                self.handlers.append((ci.handler, values[attr]))\n            values[attr] = v"))
+V("c16-handlers-copied", "C16", "fire", "C16.R",
+  (MTF, "        return SectionMatcher(ci, type_, name, self.handlers)", "        return SectionMatcher(ci, type_, name, list(self.handlers))"))
+V("c16-len-wrong", "C16", "fire", "C16.R3",
+  (LD, "        return len(self._handlers)", "        return len(self._handlers) + 1"))
+V("c16-schema-handler-first", "C16", "fire", "C16.R4",
+  (MTF, "        v = BaseMatcher.finish(self)\n        v = self.type.datatype(v)\n        if self.type.handler is not None:\n            self.handlers.append((self.type.handler, v))",
+        "        if self.type.handler is not None:\n            self.handlers.append((self.type.handler, None))\n        v = BaseMatcher.finish(self)\n        v = self.type.datatype(v)"))
+V("c16-handler-name-raw", "C16", "fire", "C16.R6",
+  ("src/ZConfig/schema.py", "        v = attrs.get(\"handler\")\n        if v is None:\n            return v\n        return self.basic_key(v)",
+   "        v = attrs.get(\"handler\")\n        return v"))
